@@ -381,6 +381,9 @@ def lifted_is_any_dimension(orig):
     def is_any_dimension(factor):
         f = sp.sympify(factor)
         if f.free_symbols and only_vs(f):
+            if f.has(sp.I):
+                re_, im_ = f.as_real_imag()
+                return bool(SymBool(z3.And(S().z(re_) == 0, S().z(im_) == 0)))
             return bool(SymBool(S().z(f) == 0))
         return orig(factor)
     return is_any_dimension
@@ -484,6 +487,70 @@ class SymFloat:
         raise LiftUnsupported("float() of symbolic number")
 
 
+class SymComplex:
+    """python-complex stand-in: a pair of z3 Reals"""
+
+    def __init__(self, re, im):
+        self.re, self.im = re, im
+
+    @staticmethod
+    def lift(x):
+        if isinstance(x, SymComplex):
+            return x
+        if isinstance(x, SymFloat):
+            return SymComplex(x.t, z3.RealVal(0))
+        if isinstance(x, complex):
+            from vlib.s2smt import qv
+            return SymComplex(qv(x.real), qv(x.imag))
+        if isinstance(x, sp.Basic) and x.has(sp.I):
+            r, i = x.as_real_imag()
+            return SymComplex(S().z(r), S().z(i))
+        return SymComplex(SymFloat.lift(x), z3.RealVal(0))
+
+    def __add__(self, o):
+        o = SymComplex.lift(o)
+        return SymComplex(self.re + o.re, self.im + o.im)
+    __radd__ = __add__
+
+    def __sub__(self, o):
+        o = SymComplex.lift(o)
+        return SymComplex(self.re - o.re, self.im - o.im)
+
+    def __rsub__(self, o):
+        o = SymComplex.lift(o)
+        return SymComplex(o.re - self.re, o.im - self.im)
+
+    def __mul__(self, o):
+        o = SymComplex.lift(o)
+        return SymComplex(self.re * o.re - self.im * o.im, self.re * o.im + self.im * o.re)
+    __rmul__ = __mul__
+
+    def __abs__(self):
+        ses = S()
+        y = ses.enc.fresh("cabs")
+        ses.enc.side += [y >= 0, y * y == self.re * self.re + self.im * self.im]
+        return SymFloat(y)
+
+    def __eq__(self, o):
+        if isinstance(o, LiftedApprox):
+            return o.__eq__(self)
+        o = SymComplex.lift(o)
+        return SymBool(z3.And(self.re == o.re, self.im == o.im))
+
+    __hash__ = None
+
+
+def lifted_complex_number(value=0, *a):
+    """complex() for symbolic scalars inside numeric code (returns a SymComplex)"""
+    try:
+        v = sp.sympify(value)
+        if isinstance(v, sp.Basic) and v.free_symbols and only_vs(v):
+            return SymComplex.lift(v if v.has(sp.I) else v + 0 * sp.I) if v.has(sp.I) else SymComplex(S().z(v), z3.RealVal(0))
+    except (sp.SympifyError, TypeError):
+        pass
+    return complex(value, *a)
+
+
 class LiftedApprox:
     """Model of pytest.approx for scalars (ApproxScalar):
          actual == approx(expected, rel, abs)  <=>  actual == expected  or
@@ -492,18 +559,33 @@ class LiftedApprox:
        boundary points on every run (checks/c08.py)."""
 
     def __init__(self, expected, rel=None, abs=None, nan_ok=False):
-        self.e = SymFloat.lift(expected)
-        self.rel = SymFloat.lift(rel if rel is not None else 1e-6)
-        self.abs = SymFloat.lift(abs if abs is not None else 1e-12)
-        ses = S()
-        for nm, t in (("relative", self.rel), ("absolute", self.abs)):
-            if bool(SymBool(t < 0)):
-                raise ValueError(f"{nm} tolerance can't be negative")
+        from fractions import Fraction
+        self.ec = expected if isinstance(expected, SymComplex) else None
+        self.e = SymFloat.lift(expected) if self.ec is None else None
+        self.rel_given, self.abs_given = rel is not None, abs is not None
+        self.rel = SymFloat.lift(rel if rel is not None else Fraction(1, 10**6))
+        self.abs = SymFloat.lift(abs if abs is not None else Fraction(1, 10**12))
+
+    def tolerance(self):
+        # pytest ApproxScalar.tolerance (finite numbers)
+        if bool(SymBool(self.abs < 0)):
+            raise ValueError("absolute tolerance can't be negative")
+        if not self.rel_given and self.abs_given:
+            return self.abs
+        ae = z3.If(self.e >= 0, self.e, -self.e) if self.ec is None else abs(self.ec).t
+        rt = self.rel * ae
+        if bool(SymBool(rt < 0)):
+            raise ValueError("relative tolerance can't be negative")
+        return z3.If(rt >= self.abs, rt, self.abs)
 
     def __eq__(self, actual):
+        if self.ec is not None or isinstance(actual, SymComplex):
+            a = SymComplex.lift(actual)
+            e = self.ec if self.ec is not None else SymComplex(self.e, z3.RealVal(0))
+            tol = self.tolerance()
+            return SymBool(z3.Or(z3.And(a.re == e.re, a.im == e.im), abs(a - e).t <= tol))
         a = SymFloat.lift(actual)
-        ae = z3.If(self.e >= 0, self.e, -self.e)
-        tol = z3.If(self.rel * ae >= self.abs, self.rel * ae, self.abs)
+        tol = self.tolerance()
         d = a - self.e
         ad = z3.If(d >= 0, d, -d)
         return SymBool(z3.Or(a == self.e, ad <= tol))
